@@ -128,7 +128,7 @@ fn dispatch_events_per_event_body(&mut self, sources_at_lookup: &SourceList<'l, 
     Ok(())
 //@ endslice
 
-//@ slice src/loop_logic.rs / impl EventLoop<'l, Data> / fn dispatch_events :: stmts <<for event in self.synthetic_events.drain(..).chain(events)>> .. <<for event in self.synthetic_events.drain(..).chain(events)>> props=C15,C02 name=EventLoop::dispatch_events::batch_loop
+//@ slice src/loop_logic.rs / impl EventLoop<'l, Data> / fn dispatch_events :: stmts <<for event in self.synthetic_events.drain(..).chain(events)>> .. <<for event in self.synthetic_events.drain(..).chain(events)>> props=C15,C02,C05,C17 name=EventLoop::dispatch_events::batch_loop
 //@ rw R20 1 <<for event in self.synthetic_events.drain(..).chain(events)>> => <<for event in lit: batch>>
 //@ rw R10 1/2 <<self.handle.inner.sources.borrow()>> => <<sources_at_lookup>>
 //@ rw R10 2/2 <<self.handle.inner.sources.borrow()>> => <<sources>>
